@@ -49,6 +49,15 @@ Proof.
     rewrite IH by (rewrite app_length; lia). cbn [length Nat.sub prepend fst snd app]. reflexivity.
 Qed.
 
+(* the Spec is not degenerate: a stream made of complete well-formed frames yields exactly those frames *)
+Theorem ref_frames_framed pre fs fi : framed pre fs -> ref_frames pre fi = (fs, end_of fi).
+Proof.
+  intros Hfr. unfold ref_frames. pose proof (framed_len _ _ Hfr) as Hl.
+  assert (Hlen : length (pre ++ []) < S (length pre)) by (rewrite app_nil_r; lia).
+  pose proof (ref_framed pre fs Hfr (S (length pre)) [] fi Hlen) as H. rewrite app_nil_r in H. rewrite H.
+  destruct (S (length pre) - length fs) as [|k] eqn:E; [lia|]. unfold prepend. cbn. now rewrite app_nil_r.
+Qed.
+
 Lemma bad_header_err h : bad_header h -> exists e, hdr h = inr e /\ e <> InternalError.
 Proof.
   intros (t1 & t0 & p1 & p0 & l1 & l0 & u & -> & Hbad). unfold hdr, be in *.
